@@ -54,6 +54,7 @@ func runC04(p *Program, r *Report) {
 	c04eom(p, r, "C04.eom")
 	c04unmask(p, r, "C04.unmask")
 	c04adapters(p, r, "C04.adapters")
+	c03hdr(p, r, "C04.hdr")
 }
 
 func c04eom(p *Program, r *Report, rule string) {
@@ -302,6 +303,7 @@ func runC06(p *Program, r *Report) {
 	c06result(p, r, "C06.result")
 	c06closed(p, r, "C06.closed")
 	c06once(p, r, "C06.once")
+	c06wait(p, r, "C06.wait")
 	c03ctl(p, r, "C06.recv")
 	c03closepayload(p, r, "C06.parse")
 }
@@ -522,6 +524,66 @@ func parseVerbs(f string) []string {
 		}
 	}
 	return out
+}
+
+// c06wait: waitCloseHandshake stays in frame sync: it first discards exactly the unread rest of the
+// current frame, then for every data frame exactly that frame's payload, and leaves only with an error
+// (the peer's Close arrives as the CloseError returned by readLoop).
+func c06wait(p *Program, r *Report, rule string) {
+	fn := p.Func("Conn.waitCloseHandshake")
+	if fn == nil {
+		return
+	}
+	p.forAllPaths(r, rule, fn, "frame-synchronous discard", Opts{Unroll: 2},
+		"after acquiring readMu, waitCloseHandshake unconditionally discards msgReader.payloadLength bytes (the unread rest of the current frame, whatever its fin bit) before the first readLoop, and after every readLoop discards exactly the returned header's payloadLength; it returns only errors",
+		func(pa *Path) (bool, string) {
+			ok, known := decidedLike(pa, "call:mu.lock@@ == nil")
+			if !known || !ok {
+				return true, ""
+			}
+			var seq []*Event
+			for _, e := range pa.Events {
+				if isCall(e, "Conn.discardFramePayload", "Conn.readLoop") && !e.Deferred {
+					seq = append(seq, e)
+				}
+			}
+			if len(seq) == 0 || seq[0].Callee != "Conn.discardFramePayload" || argKey(seq[0], 2) != "msgReader.payloadLength" {
+				return false, "the unread rest of the current frame is not discarded first (unconditionally)"
+			}
+			// no decision between the lock and the first discard other than the lock result
+			li := eventIndex(pa, 0, func(e *Event) bool { return isCall(e, "mu.lock") })
+			if seq[0].NDec-pa.Events[li].NDec > 1 {
+				return false, "the first discard is conditional"
+			}
+			for i := 1; i < len(seq); i++ {
+				prev, cur := seq[i-1], seq[i]
+				switch cur.Callee {
+				case "Conn.readLoop":
+					if prev.Callee != "Conn.discardFramePayload" {
+						return false, "readLoop without discarding the previous frame's payload"
+					}
+				case "Conn.discardFramePayload":
+					if prev.Callee != "Conn.readLoop" || argKey(cur, 2) != prev.Res.Key()+"#0.payloadLength" {
+						return false, "discards " + argKey(cur, 2) + " after " + prev.Callee
+					}
+				}
+			}
+			if pa.End == "return" && nilness(pa.Ret[0], pa) == -1 {
+				return false, "returns nil"
+			}
+			return true, ""
+		})
+	if d := p.FuncOpt("Conn.discardFramePayload"); d != nil {
+		p.forAllPaths(r, rule, d, "discard exactly n bytes", Opts{Unroll: 2}, "discardFramePayload reads min(n, len(buffer)) bytes per iteration into the control buffer, subtracts what it requested, and stops at n == 0", func(pa *Path) (bool, string) {
+			for _, e := range pa.Calls("Conn.readFramePayload") {
+				a := argKey(e, 2)
+				if !strings.Contains(a, "Conn.readControlBuf") {
+					return false, "reads into " + a
+				}
+			}
+			return true, ""
+		})
+	}
 }
 
 func c06result(p *Program, r *Report, rule string) {
